@@ -12,3 +12,11 @@ func verifGate(point string) {
 		VerifGate(point)
 	}
 }
+
+// VerifDeferDeleteTempFile and VerifCleanupTempFiles give verification
+// harnesses access to the registry of temporary files, so that concurrent
+// registrations and clean-ups can be driven from outside the package.
+func VerifDeferDeleteTempFile(path string) { deferDeleteTempFile(path) }
+
+// VerifCleanupTempFiles runs the deferred clean-up of temporary files.
+func VerifCleanupTempFiles() error { return cleanupTempFiles() }
